@@ -94,6 +94,10 @@ func Assert(c bool, label string) {
 }
 
 func Fail(label string)   { Assert(false, label) }
+
+// Unsupported ends the path under the engine as "unsupported" (reported, never counted as
+// covered). Natively it never runs: models that call it are engine-only redirects.
+func Unsupported(msg string) { panic("vrt.Unsupported: " + msg) }
 func Reach(label string)  {}
 func Stop()               { panic(stopped{}) }
 func PanicOK()            {}
@@ -225,6 +229,8 @@ func ReplayMain(entries map[string]func()) {
 						printObserved(i)
 						fmt.Printf("VERIF-REPLAY index=%d stopped violated=%d\n", i, len(Violated))
 					default:
+						Observed = append(Observed, 0xdead) // selftest: the run ended in a panic
+						printObserved(i)
 						fmt.Printf("VERIF-REPLAY index=%d panic %v\n", i, x)
 					}
 				}
